@@ -370,3 +370,74 @@ def reorder_entry_first(desc):
         h = [d for d in desc if d[0] == heads[0]]
         return h + [d for d in desc if d[0] != heads[0]]
     return desc
+
+
+# ---------------------------------------------------------------- shape facts (reach probes)
+
+def loop_facts(desc):
+    """Counts of loops (non-trivial SCCs) with >=2 headers / exits / latches."""
+    succ = {d[0]: list(d[2]) for d in desc}
+    index = {}
+    low = {}
+    onstack = set()
+    stack = []
+    sccs = []
+    counter = [0]
+
+    def strong(v):
+        # iterative Tarjan
+        work = [(v, 0)]
+        while work:
+            node, i = work[-1]
+            if i == 0:
+                index[node] = low[node] = counter[0]
+                counter[0] += 1
+                stack.append(node)
+                onstack.add(node)
+            recurse = False
+            ss = succ[node]
+            while i < len(ss):
+                w = ss[i]
+                i += 1
+                if w not in index:
+                    work[-1] = (node, i)
+                    work.append((w, 0))
+                    recurse = True
+                    break
+                elif w in onstack:
+                    low[node] = min(low[node], index[w])
+            if recurse:
+                continue
+            work.pop()
+            if work:
+                parent = work[-1][0]
+                low[parent] = min(low[parent], low[node])
+            if low[node] == index[node]:
+                comp = []
+                while True:
+                    w = stack.pop()
+                    onstack.discard(w)
+                    comp.append(w)
+                    if w == node:
+                        break
+                sccs.append(comp)
+
+    for v in succ:
+        if v not in index:
+            strong(v)
+    facts = {"loops": 0, "multi_header": 0, "multi_exit": 0, "multi_latch": 0}
+    for comp in sccs:
+        cs = set(comp)
+        if len(comp) == 1 and comp[0] not in succ[comp[0]]:
+            continue
+        facts["loops"] += 1
+        headers = set(t for n in succ if n not in cs for t in succ[n] if t in cs)
+        exits = set(t for n in cs for t in succ[n] if t not in cs)
+        latches = set(n for n in cs for t in succ[n] if t in headers)
+        if len(headers) >= 2:
+            facts["multi_header"] += 1
+        if len(exits) >= 2:
+            facts["multi_exit"] += 1
+        if len(latches) >= 2:
+            facts["multi_latch"] += 1
+    return facts
